@@ -60,8 +60,8 @@ def build_props(PROPS):
         level_note='Trusted: CBMC/DFCC, the SAT back ends, malloc never fails (A2), the IDN message function model (A7). The callbacks are replaced by their contract (result range proved in the C01 jobs).',
         trusted_base=TB_COMMON, technique=TECH)
     PROPS['C10'] = dict(
-        level='proof', quick=ALL(['is_utf8_domain', 'email_6531_host']), thorough=ALL(['is_utf8_domain@idn', 'is_utf8_domain@idnkit']),
-        level_text='Proved: the verdict, class and flags of mode 6531 are a function of the converted (A-label) string only, computed by exactly the pipeline the ASCII modes apply (is_ascii_domain, is_special_domain, last label, is_tld); a 6531 rejection the ASCII pipeline would not produce is -EEAV_IDN_ERROR. NOT proved: that the IDN library maps U-label and A-label spellings to the same string, lower-cases ASCII and rejects IDNA2008 violations.',
+        level='proof', quick=ALL(['is_utf8_domain', 'email_6531_host', 'is_special_domain_Aq', 'is_special_domain_Bq', 'lemma_rank', 'lemma_rank_inst', 'is_tld']), thorough=ALL(['is_utf8_domain@idn', 'is_utf8_domain@idnkit']),
+        level_text='Proved: the verdict, class and flags of mode 6531 are a function of the converted (A-label) string only, computed by exactly the pipeline the ASCII modes apply (is_ascii_domain, is_special_domain, last label, is_tld); a 6531 rejection the ASCII pipeline would not produce is -EEAV_IDN_ERROR; the two table-driven stages of that pipeline (is_special_domain, is_tld) are proved to compare case-insensitively over whole labels (their C09 / C07 contracts are part of this check), so an upper-case A-label spelling given to an ASCII mode gets the class the lower-cased conversion result gets in mode 6531. NOT proved: that the IDN library maps U-label and A-label spellings to the same string, lower-cases ASCII and rejects IDNA2008 violations.',
         level_note='The IDNA half of the property is the behaviour of libidn2, carried as assumed contract A7; this check decides the libeav half only.',
         trusted_base=TB_COMMON, technique=TECH)
     PROPS['C11'] = dict(
@@ -83,10 +83,10 @@ def build_props(PROPS):
         trusted_base=TB_COMMON, technique=TECH)
     PROPS['C16'] = dict(
         level='proof', quick=ALL(E_HOST + E_LIT),
-        thorough=ALL(['email_822_host+extra', 'email_822_literal+extra', 'email_5321_host+extra', 'email_5321_literal+extra', 'email_5322_host+extra', 'email_5322_literal+extra',
+        thorough=ALL(['email_822_host+extra', 'email_822_literal+extra', 'email_5321_host+extra', 'email_5321_literal+extra', 'email_5322_host+extra', 'email_5322_literal+extra', 'email_6531_host+extra', 'email_6531_literal+extra',
                       'eav_result_free+extra', 'eav_free+extra', 'eav_is_email+extra']),
         level_text='Postconditions of the four e-mail functions: at most one flag; on acceptance exactly the flag of the path taken (host name / IPv4 / IPv6 by family); no flag when a half is syntactically invalid; result code 0 / class / negative as in the property; record fresh and fully initialised.',
-        level_note='The EAV_EXTRA sentence of the property is decided in the thorough tier only (the three ASCII e-mail functions, eav_result_free, eav_free, eav_is_email built with -DEAV_EXTRA: lpart / domain are strndup copies of exactly the two halves, without brackets for literals, NULL when no flag is set, released by eav_result_free); the 6531 function has no EAV_EXTRA job. A2, A3.',
+        level_note='The EAV_EXTRA sentence of the property is decided in the thorough tier only (the four e-mail functions (6531: libidn2 back end), eav_result_free, eav_free, eav_is_email built with -DEAV_EXTRA: lpart / domain are strndup copies of exactly the two halves, without brackets for literals, NULL when no flag is set, released by eav_result_free). A2, A3.',
         trusted_base=TB_COMMON, technique=TECH)
     PROPS['C18'] = dict(
         level='proof',
